@@ -1,7 +1,7 @@
 (* GENERATED from /repo by harness/c13.py on every run; do not edit *)
 From Coq Require Import ZArith List.
 Import ListNotations.
-Definition undef_reduces_to_global : bool := false.
+Definition undef_reduces_to_global : bool := true.
 Definition len_format_is_network_u32 : bool := true.
 Definition frame_order_id_len_body : bool := true.
 Definition id_len : nat := 16.
